@@ -23,12 +23,31 @@ theorem monOf_eq_monitor (w : List WEv) : monOf w = monitor w.reverse := by
     sentBy (.rx t' n' :: w) t n = sentBy w t n := by
   simp [sentBy]
 
+@[simp] theorem sentBy_cons_to (w : List WEv) (t' n' t n : Nat) :
+    sentBy (.to t' n' :: w) t n = sentBy w t n := by
+  simp [sentBy]
+
 theorem sentBy_reverse (w : List WEv) (t n : Nat) : sentBy w.reverse t n = sentBy w t n := by
   simp [sentBy]
 
+@[simp] theorem timedOut_cons_tx (w : List WEv) (t' n' s r c t n : Nat) :
+    timedOut (.tx t' n' s r c :: w) t n = timedOut w t n := by
+  simp [timedOut]
+
+@[simp] theorem timedOut_cons_rx (w : List WEv) (t' n' t n : Nat) :
+    timedOut (.rx t' n' :: w) t n = timedOut w t n := by
+  simp [timedOut]
+
+@[simp] theorem timedOut_cons_to (w : List WEv) (t' n' t n : Nat) :
+    timedOut (.to t' n' :: w) t n = ((t' == t && n' == n) || timedOut w t n) := by
+  simp [timedOut]
+
+theorem timedOut_reverse (w : List WEv) (t n : Nat) : timedOut w.reverse t n = timedOut w t n := by
+  simp [timedOut]
+
 /-- Facts that hold while thread `t` (record `th`) owns the lock, by program point. They
 mention only the wire, the socket queue and the session sequence. -/
-def HolderInv (w : List WEv) (sock : List Reply) (ss : Nat) (t : Nat) (th : Thr) : Prop :=
+def HolderInv (w : List WEv) (sock : List Reply) (par : Par) (ss : Nat) (t : Nat) (th : Thr) : Prop :=
   match th.pc with
   | .lkLoad => (monOf w).opn = none ∧ sock = [] ∧ (∀ a, (monOf w).last = some a → a = ss) ∧ ss ≤ 0xffffffff
   | .lkStore => (monOf w).opn = none ∧ sock = [] ∧ (∀ a, (monOf w).last = some a → a = ss) ∧ ss ≤ 0xffffffff
@@ -44,12 +63,27 @@ def HolderInv (w : List WEv) (sock : List Reply) (ss : Nat) (t : Nat) (th : Thr)
       ∧ ss ≤ 0xffffffff
   | .send => (monOf w).opn = none ∧ sock = [] ∧ (∀ a, (monOf w).last = some a → seqNext a ss = true)
       ∧ ss ≤ 0xffffffff ∧ th.reg = ss
-  | .recv => (monOf w).opn = some (t, th.mine) ∧ sock = [⟨th.mine, th.hdr, th.cmd⟩]
+  | .recv => (monOf w).opn = some (t, th.mine)
+      ∧ (sock = [⟨th.mine, th.hdr, th.cmd⟩] ∨ (sock = [] ∧ lostAt par.loss th.mine = true))
       ∧ (∀ a, (monOf w).last = some a → a = ss) ∧ ss ≤ 0xffffffff ∧ sentBy w t th.mine = true
   | .requeue => False
   | .release => (monOf w).opn = none ∧ sock = [] ∧ (∀ a, (monOf w).last = some a → a = ss)
-      ∧ ss ≤ 0xffffffff ∧ (∃ r, th.got = some r ∧ r.serial = th.mine) ∧ sentBy w t th.mine = true
+      ∧ ss ≤ 0xffffffff ∧ sentBy w t th.mine = true
+      ∧ ((∃ r, th.got = some r ∧ r.serial = th.mine)
+          ∨ (th.got = none ∧ timedOut w t th.mine = true ∧ lostAt par.loss th.mine = true))
   | _ => True
+
+/-- What clause (O) says about one finished call of thread `t`. -/
+def ResOk (w : List WEv) (par : Par) (t : Nat) (r : CallRes) : Prop :=
+  (∃ n, r = .ok n n ∧ sentBy w t n = true) ∨
+  (∃ n, r = .retryError n ∧ sentBy w t n = true ∧ timedOut w t n = true ∧ lostAt par.loss n = true)
+
+theorem ResOk.mono {w w' : List WEv} {par : Par} {t : Nat} {r : CallRes} (h : ResOk w par t r)
+    (hs : ∀ t n, sentBy w t n = true → sentBy w' t n = true)
+    (hto : ∀ t n, timedOut w t n = true → timedOut w' t n = true) : ResOk w' par t r := by
+  rcases h with ⟨n, h1, h2⟩ | ⟨n, h1, h2, h3, h4⟩
+  · exact Or.inl ⟨n, h1, hs _ _ h2⟩
+  · exact Or.inr ⟨n, h1, hs _ _ h2, hto _ _ h3, h4⟩
 
 /-- The inductive invariant. -/
 structure Inv (s : Sys) : Prop where
@@ -67,10 +101,12 @@ structure Inv (s : Sys) : Prop where
   free : s.lock = none → (monOf s.wire).opn = none ∧ s.sock = [] ∧
       (∀ a, (monOf s.wire).last = some a → a = s.sessSeq) ∧ s.sessSeq ≤ 0xffffffff
   holder : ∀ (t : Nat) (th : Thr), s.thr[t]? = some th → s.lock = some t →
-      HolderInv s.wire s.sock s.sessSeq t th
-  /-- clause (O): every finished call returned the reply to the datagram this thread sent -/
-  res : ∀ (t : Nat) (th : Thr), s.thr[t]? = some th → ∀ r ∈ th.results,
-      ∃ n, r = .ok n n ∧ sentBy s.wire t n = true
+      HolderInv s.wire s.sock s.par s.sessSeq t th
+  /-- clause (O): every finished call returned the reply to the datagram this thread sent (last) — or failed
+  after the socket had timed out on that datagram, whose reply the network had lost -/
+  res : ∀ (t : Nat) (th : Thr), s.thr[t]? = some th → ∀ r ∈ th.results, ResOk s.wire s.par t r
+  /-- the session wrapper is packed for every attempt (or there is no second attempt) -/
+  repack : s.par.packOnce = false ∨ s.par.maxRetries = 0
 
 theorem get_set_cases {l : List Thr} {t t' : Nat} {a b th : Thr} (h0 : l[t]? = some th)
     (h : (l.set t a)[t']? = some b) : (t' = t ∧ b = a) ∨ (t' ≠ t ∧ l[t']? = some b) := by
@@ -98,9 +134,9 @@ theorem get_set_self {l : List Thr} {t : Nat} {a th : Thr} (h0 : l[t]? = some th
 (only if the stepping thread owns the lock) and the thread's own registers. -/
 theorem inv_local {s s' : Sys} {t : Nat} {th th' : Thr} (hi : Inv s) (hget : s.thr[t]? = some th)
     (hlock : s'.lock = s.lock) (hwire : s'.wire = s.wire) (hq : s'.q = s.q) (hsock : s'.sock = s.sock)
-    (hserial : s'.serial = s.serial) (hthr : s'.thr = s.thr.set t th')
+    (hserial : s'.serial = s.serial) (hpar : s'.par = s.par) (hthr : s'.thr = s.thr.set t th')
     (hpc : inLock th'.pc = inLock th.pc) (hres : th'.results = th.results)
-    (hown : s.lock = some t → HolderInv s.wire s.sock s'.sessSeq t th')
+    (hown : s.lock = some t → HolderInv s.wire s.sock s.par s'.sessSeq t th')
     (hss : s.lock ≠ some t → s'.sessSeq = s.sessSeq) : Inv s' := by
   constructor
   · intro t' b hb
@@ -128,7 +164,7 @@ theorem inv_local {s s' : Sys} {t : Nat} {th th' : Thr} (hi : Inv s) (hget : s.t
   · intro t' b hb hl
     rw [hthr] at hb
     rw [hlock] at hl
-    rw [hwire, hsock]
+    rw [hwire, hsock, hpar]
     rcases get_set_cases hget hb with ⟨rfl, rfl⟩ | ⟨hne, hb⟩
     · exact hown hl
     · have : s.lock ≠ some t := by rw [hl]; intro h; injection h with h; exact hne h
@@ -136,20 +172,22 @@ theorem inv_local {s s' : Sys} {t : Nat} {th th' : Thr} (hi : Inv s) (hget : s.t
       exact hi.holder _ _ hb hl
   · intro t' b hb r hr
     rw [hthr] at hb
-    rw [hwire]
+    rw [hwire, hpar]
     rcases get_set_cases hget hb with ⟨rfl, rfl⟩ | ⟨hne, hb⟩
     · rw [hres] at hr; exact hi.res _ _ hget r hr
     · exact hi.res _ _ hb r hr
+  · rw [hpar]; exact hi.repack
 
 /-- A step of the lock holder that keeps the lock. -/
 theorem inv_holder {s s' : Sys} {t : Nat} {th th' : Thr} (hi : Inv s) (hget : s.thr[t]? = some th)
-    (hl : s.lock = some t) (hlock : s'.lock = some t) (hthr : s'.thr = s.thr.set t th')
+    (hl : s.lock = some t) (hlock : s'.lock = some t) (hpar : s'.par = s.par) (hthr : s'.thr = s.thr.set t th')
     (hpc : inLock th'.pc = true) (hres : th'.results = th.results)
     (hexch : (monOf s'.wire).exch = true) (hincr : (monOf s'.wire).incr = true)
     (hafter : (monOf s'.wire).after = true)
     (hntx : (monOf s'.wire).ntx = s'.serial) (hq : s'.q = [])
     (hmono : ∀ t n, sentBy s.wire t n = true → sentBy s'.wire t n = true)
-    (hown : HolderInv s'.wire s'.sock s'.sessSeq t th') : Inv s' := by
+    (hmono2 : ∀ t n, timedOut s.wire t n = true → timedOut s'.wire t n = true)
+    (hown : HolderInv s'.wire s'.sock s'.par s'.sessSeq t th') : Inv s' := by
   constructor
   · intro t' b hb
     rw [hthr] at hb
@@ -181,9 +219,10 @@ theorem inv_holder {s s' : Sys} {t : Nat} {th th' : Thr} (hi : Inv s) (hget : s.
     rw [hthr] at hb
     rcases get_set_cases hget hb with ⟨rfl, rfl⟩ | ⟨hne, hb⟩
     · rw [hres] at hr
-      obtain ⟨n, h1, h2⟩ := hi.res _ _ hget r hr
-      exact ⟨n, h1, hmono _ _ h2⟩
-    · obtain ⟨n, h1, h2⟩ := hi.res _ _ hb r hr
-      exact ⟨n, h1, hmono _ _ h2⟩
+      rw [hpar]
+      exact (hi.res _ _ hget r hr).mono hmono hmono2
+    · rw [hpar]
+      exact (hi.res _ _ hb r hr).mono hmono hmono2
+  · rw [hpar]; exact hi.repack
 
 end PyIpmi.Threads
